@@ -55,12 +55,27 @@ def case_of_record(rec):
 
 
 def pinned_cases(chk):
-    """Pinned inputs of the open findings of this property: always executed."""
-    out = []
+    """Pinned direct-template inputs, always executed first: the findings of this property
+    (open ones are reported as KNOWN-FINDING while they still fail; a *fixed* entry suppresses
+    nothing — its input stays here so that reverting the repair is a violation again) and
+    corpus/<prop>/*.json (also corpus/C02 for C03 and vice versa: same executions)."""
+    out, seen = [], set()
     for k in chk.known:
-        if k.get("property") == chk.prop and k.get("status") == "open" and \
-                isinstance(k.get("input"), dict) and "config" in k["input"]:
-            out.append((k, case_of_record(k["input"])))
+        if k.get("property") == chk.prop and isinstance(k.get("input"), dict) and "config" in k["input"]:
+            case = case_of_record(k["input"])
+            seen.add(repr(case))
+            out.append((k if k.get("status") == "open" else None, case))
+    for prop in ("C02", "C03"):
+        cdir = os.path.join(common.VERIF, "corpus", prop)
+        if os.path.isdir(cdir):
+            for fn in sorted(os.listdir(cdir)):
+                if fn.endswith(".json"):
+                    rec = json.load(open(os.path.join(cdir, fn)))
+                    if "config" in rec:
+                        case = case_of_record(rec)
+                        if repr(case) not in seen:
+                            seen.add(repr(case))
+                            out.append((None, case))
     return out
 
 
@@ -122,8 +137,8 @@ def run_cases(chk, prop, shapes, argts, cases, path, noopt, model_exe, stats, pi
     model = None
     if model_exe:
         model = common.Model(model_exe).ask([S.model_line(*c, path) for c in cases])
-    for (k, case), rl in zip(pins, real):      # pinned findings come first in `cases`
-        if compare_with_spec(prop, case, rl):
+    for (k, case), rl in zip(pins, real):      # pinned inputs come first in `cases`
+        if k is not None and compare_with_spec(prop, case, rl):
             chk.report_known(k)
     judge(chk, prop, cases, real, model, path, stats)
 
